@@ -20,10 +20,9 @@ import json
 import os
 import re
 import signal
-import sys
 from concurrent.futures import ProcessPoolExecutor
 
-from common import coq_list, coq_N, coq_nat, stdlib_files, NCPU, VERIF, REPO
+from common import coq_list, coq_nat, stdlib_files, NCPU, VERIF, REPO
 
 LEVEL = 'proof'
 ASSUMPTIONS = [
